@@ -28,7 +28,7 @@ MODELLED = {
     "dlog": "X_dlog", "com_eq": "X_com_eq", "com_enc_eq": "X_com_enc_eq", "com_mult": "X_com_mult",
     "aggregate_dlog": "X_aggregate_dlog", "and(dlog,com_eq)": "X_and_dlog_com_eq",
     "replicate(dlog)": "X_replicate_dlog", "com_lin": "X_com_lin", "com_eq_different_groups": "X_com_eq_diff",
-    "enc_trans": "X_enc_trans", "com_ineq/com_mult": "X_com_mult", "vcom_eq": "X_vcom_eq",
+    "enc_trans": "X_enc_trans", "com_ineq/com_mult": "X_com_mult", "vcom_eq": "X_vcom_eq", "com_eq_sig": "X_com_eq_sig",
 }
 PREAMBLE = ("From Coq Require Import ZArith NArith List.\n"
             "From CB Require Import Crypto.Alg Crypto.Transcript Crypto.SigmaGeneric Crypto.SigmaCodec Crypto.SigmaExec Crypto.Sigma_com_ineq.\n"
@@ -51,6 +51,11 @@ def zl(xs):
 
 def kind(k):
     return "V1" if k == "v1" else "Legacy"
+
+
+def model_pubs(cs, pubs):
+    # com_eq_sig: the flat layout does not determine (n, key length); the model takes n as first element
+    return ([cs["n"]] + list(pubs)) if cs["p"] == "com_eq_sig" else pubs
 
 
 def case_ctx(k, cs):
@@ -107,13 +112,13 @@ def parse_hexout(body):
 def honest_expr(cs):
     k = kind(cs["k"])
     return HEXOUT_H % "x_honest %s %s %s %s %s (scalar_from_bytes_bls %s) %s" % (
-        MODELLED[cs["p"]], k, case_ctx(k, cs), zl([int(x, 16) for x in cs["pub"]]),
+        MODELLED[cs["p"]], k, case_ctx(k, cs), zl(model_pubs(cs, [int(x, 16) for x in cs["pub"]])),
         zl([int(x, 16) for x in cs["wit"]]), nl(bytes.fromhex(cs["chal"])), zl(scalars(cs)))
 
 
 def verify_expr(cs, pubs, resp):
     k = kind(cs["k"])
-    return HEXOUT_V % ("x_verify %s %s %s %s %s %s" % (MODELLED[cs["p"]], k, case_ctx(k, cs), zl(pubs),
+    return HEXOUT_V % ("x_verify %s %s %s %s %s %s" % (MODELLED[cs["p"]], k, case_ctx(k, cs), zl(model_pubs(cs, pubs)),
                                                        nl(bytes.fromhex(cs["chal"])), zl(resp)))
 
 
@@ -126,31 +131,41 @@ def flat_ints(t, out):
 
 
 class Points:
-    """dlog -> real compressed point, computed by the harness with the real curve arithmetic."""
+    """discrete log -> real encoding of the group element (G1 / G2 compressed point, target-group element),
+    computed by the harness with the real curve arithmetic / pairing.  Tokens: 2^260 + d (G1), 2^261 + d (G2),
+    2^262 + d (GT)."""
+    GROUPS = ((1 << 262, "gt"), (1 << 261, "g2"), (1 << 260, "g1"))
 
     def __init__(self, binp):
         self.binp = binp
         self.tab = {}
 
+    @classmethod
+    def split(cls, t):
+        for base, name in cls.GROUPS:
+            if t >= base:
+                return name, t - base
+        raise ValueError(t)
+
     def need(self, toks):
-        want = sorted({t - TOK for t in toks if t >= TOK} - set(self.tab))
+        want = sorted({self.split(t) for t in toks if t >= TOK} - set(self.tab))
         if not want:
             return
-        inp = "\n".join("%064x" % d for d in want) + "\n"
+        inp = "\n".join("%s %064x" % (g, d) for g, d in want) + "\n"
         rc, out = c.run_bin(self.binp, ["points"], timeout=900, input=inp.encode())
         if rc != 0:
             raise RuntimeError("points mode failed: " + out[-500:])
         for line in out.splitlines():
             a = line.split()
-            if len(a) == 2:
-                self.tab[int(a[0], 16)] = bytes.fromhex(a[1])
+            if len(a) == 3:
+                self.tab[(a[0], int(a[1], 16))] = bytes.fromhex(a[2])
 
     def expand(self, toks):
         """entries >= 2^260: group-element token; otherwise a packed run of n <= 30 bytes (SigmaExec.pack)"""
         out = bytearray()
         for t in toks:
             if t >= TOK:
-                out += self.tab[t - TOK]
+                out += self.tab[self.split(t)]
             else:
                 n = t >> 240
                 out += (t & ((1 << 240) - 1)).to_bytes(n, "big")
